@@ -3,6 +3,7 @@
 
 use crate::exec::*;
 use crate::session::*;
+use crate::world::Violation;
 use pearl::{Key, Storage};
 use std::rc::Rc;
 use std::time::Duration;
@@ -51,7 +52,21 @@ where
                     break;
                 }
                 ctx3.world.probe("dirty_bound_checked_between_operations");
+                let nviol = ctx3.violations.borrow().len();
                 crate::oracle::check_dirty_bound(&ctx3, &st3).await;
+                if ctx3.violations.borrow().len() > nviol {
+                    // tentative: the worker may be in the middle of a request that ends with a sync
+                    // (a rotation waiting for the storage lock does no I/O for a while). It is a verdict
+                    // only if nothing at all happens during another quiet period
+                    let tentative: Vec<Violation> = ctx3.violations.borrow_mut().drain(nviol..).collect();
+                    let seq0 = ctx3.world.seq();
+                    let still_quiet = crate::oracle::settle(&ctx3).await && crate::oracle::settle(&ctx3).await && ctx3.world.seq() == seq0;
+                    if still_quiet {
+                        ctx3.violations.borrow_mut().extend(tentative);
+                    } else {
+                        ctx3.world.probe("dirty_bound_tentative_dropped");
+                    }
+                }
                 if !ctx3.violations.borrow().is_empty() {
                     break;
                 }
